@@ -130,6 +130,8 @@ def tmpl(name, args):
         return ("bi", "abs", X, ())
     if name == "round1":
         return ("bi", "round", ("bin", "truediv", X, ("lit", 4)), (("lit", 1),))
+    if name == "constcall":   # a definition that reads NO location of the data container: a call with numeric arguments only
+        return ("call", "pick", (("lit", 3),), (("k", ("lit", 2)),))
     if name == "dyn":
         return ("dyn", args[0], ("loc", args[1]))
     if name == "dynx":   # a computed key that is an EXPRESSION of a reference: l[1 - i]
@@ -201,6 +203,8 @@ def build_universe(world, cfg):
                 for X, Y in itertools.permutations(sources, 2):
                     if X != L and Y != L:
                         ops.append(("def", L, tmpl(name, (X, Y))))
+            elif name == "constcall":
+                ops.append(("def", L, tmpl(name, ())))
             elif name in ("total", "size"):
                 for C in world["containers"]:
                     if not T.overlap(C, L):
